@@ -10,6 +10,7 @@
   "today" (`dt(0)`) is an input.   Core Lean only (linked into the driver).
 -/
 import PygModel.Join
+import PygModel.DateParse
 
 namespace Pyg
 
@@ -196,11 +197,30 @@ inductive PResult where
 /-- the arguments `f` receives on row `i`: the cells of its declared parameters -/
 def rowArgs (t : Table) (params : List String) (i : Nat) : List Cell := params.map fun p => t.jcellAt p i
 
-/-- a row is (re)computed when its expiry is `None` or not before today (line 332) -/
+/-- the instant an expiry cell spells, as `dt(value)` reads it (line 332 since fix 7ea4860: "in any spelling dt() accepts"): a
+datetime (a `datetime.date` arrives as its midnight), a date STRING (`'2000-01-01'`, `'20000101'`, `'01/02/2000'`, ... the C03
+model `DateParse.dtStr`, uk dialect) or a NUMBER that `num2dt` reads as an absolute date (`20000101`; C03 `num2dtQ`).  `none`: a
+spelling the model does not read - a number that `num2dt` takes as an offset from the wall clock, text outside the C03 grammar, a
+spelling on which `dt` raises, bools; the driver answers `bad-op` for a call that carries one (never totalised silently). -/
+def expiryDate : Cell → Option Int
+  | .dt us => some us
+  | .str s => match DateParse.dtStr true s with
+    | some (.ok t) => some t
+    | _ => none
+  | .int n => match DateParse.num2dtQ (4 * n) with
+    | .abs (.ok t) => some t
+    | _ => none
+  | _ => none
+
+/-- a row is (re)computed when its expiry is `None` or not before today (line 332: `value is None or dt(value) >= today`) -/
 def runExpiry (today : Int) : Cell → Bool
   | .none => true
-  | .dt us => us ≥ today
-  | _ => true
+  | c => match expiryDate c with
+    | some us => decide (us ≥ today)
+    | none => true
+
+/-- the expiry cells the model reads: `None` or a spelling of an absolute instant -/
+def expiryCovered (c : Cell) : Bool := c == .none || (expiryDate c).isSome
 
 /-- `is_none` -/
 def Cell.isNone : Cell → Bool
